@@ -120,12 +120,13 @@ def name_pools():
         "ternary": {"i0": "a", "i1": "a_X", "g": "g_X", "h": "g_x_in_fi"},
         "limit": {"i0": "g_limit_fanin_0", "i1": "g_limit_fanout_0", "h": "g_limit_fanin_1"},
         "miter": {"i0": "sat", "i1": "dif_g", "h": "c0_g", "i2": "c1_g"},
+        "miter3": {"i0": "c0_k", "i1": "c1_k", "i2": "c0_m", "h": "c1_h", "a": "c0_a", "b": "c1_a", "s": "c1_s"},
         "miter2": {"i0": "dif_en", "i1": "sat_in", "i2": "c0x", "h": "dif", "a": "dif_a_en", "s": "c1", "b": "satb"},
         "unroll": {"i0": "unrolled_0_a", "i1": "aux_in_g", "h": "c0_a"},
         "unroll2": {"i0": "a_cg_unroll_0", "i1": "unrolled_1_g", "g": "a_cg_unroll_1", "h": "a"},
         "regs": {"i0": "ff_g", "i1": "g_cg_insert_reg_q_1", "h": "clk", "g": "g"},
         "acyc": {"a": "aux_in_q", "s": "c0_q", "r": "c1_aux_in_q", "d": "aux_in_p", "b": "c0_aux_in_p"},
-        "escaped": {"i0": "\\a[0]", "i1": "\\b+c", "g": "\\out[1]", "h": "\\sel", "i2": "sel", "a": "\\reset", "b": "reset", "s": "\\n_1"},
+        "escaped": {"i0": "\\a[0]", "i1": "\\b+c", "g": "\\out[1]", "h": "\\sel", "i2": "sel", "a": "\\reset", "b": "reset", "s": "\\n_1", "c": "\\d,en", "d": "\\x;y"},
         "verilog": {"i0": "not_a", "i1": "and_a_b", "i2": "a", "h": "g_0"},
     }
 
@@ -167,6 +168,10 @@ def f_cyc():
     add("two_scc", I("a", "b") + [("p", "or", ["a", "q"]), ("q", "buf", ["p"]), ("u", "and", ["b", "v", "q"]), ("v", "buf", ["u"]), ("o", "xor", ["q", "v"], True)])
     add("out_outside", I("a") + [("p", "or", ["a", "q"]), ("q", "and", ["p", "a"]), ("o", "not", ["a"], True), ("o2", "buf", ["q"], True)])
     add("xor_ring", I("a") + [("p", "xor", ["a", "q"]), ("q", "buf", ["p"], True)])
+    add("self_xor", I("a") + [("g", "xor", ["g", "a"], True)])
+    add("self_and", I("a", "b") + [("g", "and", ["g", "a"]), ("o", "or", ["g", "b"], True)])
+    add("self_xnor3", I("a", "b") + [("g", "xnor", ["g", "a", "b"], True), ("h", "xor", ["h", "g", "a", "b"], True)])
+    add("self_or_buf", I("a") + [("g", "or", ["g", "a"]), ("h", "nor", ["h"], True), ("o", "buf", ["g"], True)])
     add("two_cuts_v_first", I("a", "b") + [("v", "and", ["f", "g", "a"], True), ("f", "or", ["v", "b"]), ("g", "xor", ["v", "a"])])
     add("two_cuts_v_last", I("a", "b") + [("f", "or", ["v", "b"]), ("g", "xnor", ["v", "a"]), ("v", "nand", ["f", "g", "a"], True)])
     add("two_cuts_mixed", I("a", "b") + [("f", "nor", ["v", "b"]), ("v", "or", ["f", "g"], True), ("g", "and", ["v", "a"]), ("w", "xor", ["f", "g", "b"], True)])
